@@ -252,6 +252,8 @@ protected:
 
   /// Export logical constraint \a i.
   void ExportLogCon(int i) {
+    if (!GetModel().logical_con(i).expr())   // declared in the NL header but no
+      return;                 // L segment: reported by ConvertLogicalCon()
     if (GetFlatCvt().GetFileAppender().IsOpen()) {
       fmt::MemoryWriter wrt;
       {
